@@ -366,6 +366,14 @@ func (c *Context) Quo(d, x, y *Decimal) (Condition, error) {
 				// setExponent.
 				nd = unknownNumDigits
 			}
+		} else {
+			// The result is subnormal and will be rounded by setExponent. Keep
+			// the discarded remainder as a non-zero sticky digit so that it
+			// still takes part in that rounding decision.
+			d.Coeff.Mul(&d.Coeff, bigTen)
+			d.Coeff.Add(&d.Coeff, bigOne)
+			diff = -1
+			nd = unknownNumDigits
 		}
 	}
 
